@@ -77,7 +77,7 @@ def _(c):
     c.ensures("a-record-was-handed-out", "result is not None")
 
 
-@contract(MOD + ":Fetcher.fetched_records", ["C05", "C03"])
+@contract(MOD + ":Fetcher.fetched_records", ["C05", "C03", "C04"])
 def _(c):
     _common(c)
     c.param("partitions", Set(TP))
@@ -85,21 +85,47 @@ def _(c):
     c.param("max_records", Opt(INT))
     c.returns(Dict(TP, List(Ref("ConsumerRecordObj"))))
     c.local("drained", Dict(TP, List(Ref("ConsumerRecordObj"))))
+    c.local("records", List(Ref("ConsumerRecordObj")))
     c.call("time.monotonic", returns=REAL, note="clock")
     c.call("asyncio.wait", returns=Tup(Set(Fut(NONE)), Set(Fut(NONE))), havoc_all=True,
            note="asyncio.wait([waiter], timeout): suspends; returns (done, pending)")
-    c.call("res_or_error.getall", returns=List(Ref("ConsumerRecordObj")),
-           modifies=["self_._partition_records", "TPState._position", "PartitionRecords.next_fetch_offset",
-                     "PartitionRecords._aborted_transactions", "PartitionRecords._aborted_producers"],
-           note="FetchResult.getall (for-else over the generator: not under contract; same gate as getone by inspection)")
-    c.loop(0, header="while True", invariants=[("buffered-results-not-exhausted", BUFFERED_OK)])
+    # res_or_error.getall is FetchResult.getall, under contract (fetch_result.py): it moves the partition's position past
+    # the records it returns, and it may raise (corrupt batch, failing deserializer) with no position moved
+    # C03 "position() is never ... ahead of a visible record that has not been returned" / C04: records taken out of a
+    # buffer (their partition's position has moved past them) are held in `drained` until the call returns them.
+    # $holding: this call holds such records. The call may then only end by returning them.
+    c.requires("max_records is None or max_records >= 1", "max-records-positive")     # getmany() validates it
+    c.callee_view("FetchResult.getall", ["at-most-max-records"])
+    c.ghost("$holding", BOOL, "False")
+    c.hook("before", "res_or_error.has_more", [
+        ("set", "$holding", "$holding or len(records) > 0"),
+    ])
+    c.loop(0, header="while True", invariants=[("buffered-results-not-exhausted", BUFFERED_OK),
+                                               ("holds-no-records-between-rounds", "not $holding"),
+                                               ("budget-left", "max_records is None or max_records >= 1")])
     c.loop(1, header="for tp in list(self._records.keys())", invariants=[
+        ("buffered-results-not-exhausted", BUFFERED_OK),
         ("gate-still-passed", GATE_NOW),
+        ("held-records-are-in-drained", "implies($holding, nonempty_dict(drained))"),
+        # the loop walks a snapshot of the keys and deletes only the entry it is at: no KeyError half-way
+        ("unvisited-keys-still-buffered", "forall(TP, lambda q: implies(q in $dom and q not in $done, q in self._records))"),
+        ("budget-left", "max_records is None or max_records >= 1"),
     ])
     c.hook("before", "res_or_error.getall", [
         ("assert", "no-hand-out-while-a-rebalance-is-in-progress", GATE_NOW),
         ("assert", "only-requested-partitions", "len_is_zero(partitions) or tp in partitions"),
     ])
+    c.raises_[:] = [r for r in c.raises_ if r[0] != "stopped-buffered-error-or-cancelled"]
+    c.raises("stopped-buffered-error-or-cancelled", "BaseException",
+             ensures=[("no-records-taken-from-a-buffer-are-dropped-with-the-exception", "not $holding")])
+    c.ensures_internal("held-records-are-returned", "implies($holding, nonempty_dict(result))")
+
+
+@specfn("nonempty_dict")
+def nonempty_dict(ex, st, d):
+    import z3
+    from pyvc import ty as T
+    return V(BOOL, T.dict_dom(d) != z3.K(d.ty.k.sort(), False))
 
 
 @specfn("len_is_zero")
